@@ -412,11 +412,6 @@ func (c *ComputedStyle) cascadeValue(key pr.PropKey) (value pr.DeclaredValue, sa
 		}
 	}
 
-	if value == pr.Inherit && c.isRootElement() {
-		// On the root element, "inherit" from initial values
-		value = pr.Initial
-	}
-
 	parent_style := c.parentStyle
 	if rawTokens, isPending := value.(pr.RawTokens); isPending { // Property with pending values, validate them.
 		var solvedTokens []Token
@@ -459,6 +454,12 @@ func (c *ComputedStyle) cascadeValue(key pr.PropKey) (value pr.DeclaredValue, sa
 				}
 			}
 		}
+	}
+
+	if value == pr.Inherit && c.isRootElement() {
+		// On the root element, "inherit" from initial values
+		// (also when the keyword comes from a substituted var())
+		value = pr.Initial
 	}
 
 	if value == pr.Initial {
